@@ -178,14 +178,26 @@ int ffi_decl_call(ffi_decl * decl, char * fname, void * handle)
         return FFI_FAIL;
     }
 
+    /* ffi_call may replace entries of the value array (large structs passed by value are
+       copied to the stack); give it a scratch copy so that param_values keeps the
+       malloc'ed buffers that ffi_decl_delete frees */
+    void ** call_values = NULL;
+    if (decl->count > 0)
+    {
+        call_values = (void **)malloc(decl->count * sizeof(void *));
+        memcpy(call_values, decl->param_values, decl->count * sizeof(void *));
+    }
+
     if (decl->ret_type->type == FFI_TYPE_STRUCT)
     {
-        ffi_call(&decl->cif, FFI_FN(func), decl->ret_void_value, decl->param_values);
+        ffi_call(&decl->cif, FFI_FN(func), decl->ret_void_value, call_values);
     }
     else
     {
-        ffi_call(&decl->cif, FFI_FN(func), &decl->ret_void_value, decl->param_values);
+        ffi_call(&decl->cif, FFI_FN(func), &decl->ret_void_value, call_values);
     }
+
+    free(call_values);
 
     return FFI_SUCC;
 }
